@@ -1,6 +1,7 @@
 #!/usr/bin/env python3
 """Translate the table dump of the current /repo tree (ink_harness dump) plus a few private constants parsed from the
-source into Coq: coq/Gen/Magic{R,B}NN.v (one magic configuration per file), coq/Gen/Tables.v (the Tables.t record).
+source into Coq: coq/Gen/Magic{R,B}NN.v (one magic configuration per file), coq/Gen/Tables.v (the Tables.t record),
+and the C04 sweep obligations coq/Gen/Sweep{R,B}NN.v (one exhaustive per-square check each), SweepLeapers.v, SweepAll.v.
 Files are only rewritten when their content changes, so `make` re-checks exactly what changed.
 Usage: gen_tables.py <dump file> <repo root> <coq/Gen dir>"""
 import os, re, sys
@@ -34,7 +35,7 @@ def parse_source_consts(repo):
         if not m: raise SystemExit('gen_tables: cannot find %s_VALUE in simple.rs' % name)
         out[name] = int(m.group(1).replace('_', ''))
     hist = open(os.path.join(repo, 'engine_core/src/engine/zobrist_history.rs')).read()
-    m = re.search(r'history: \[ZobristHash; ([0-9_]+)\]', hist)
+    m = re.search(r'history: vec!\[0; ([0-9_]+)\]', hist) or re.search(r'history: \[ZobristHash; ([0-9_]+)\]', hist)
     if not m: raise SystemExit('gen_tables: cannot find the history length')
     out['history_len'] = int(m.group(1).replace('_', ''))
     search = open(os.path.join(repo, 'engine_core/src/engine/search.rs')).read()
@@ -42,6 +43,45 @@ def parse_source_consts(repo):
     if not m: raise SystemExit('gen_tables: cannot find the transposition table capacity')
     out['tt_capacity'] = int(m.group(1).replace('_', ''))
     return out
+
+def write_sweeps(gen_dir):
+    """C04 obligations: every square's magic configuration is checked against the geometric ray attacks for all
+    sub-masks of its blocker mask (Proofs/AttackProofs.v: sweep_ok / sweep_sound); one file per square so that
+    `make -j` checks them in parallel and a change of one table re-checks one file."""
+    hdr = '(* GENERATED from /repo by checks/gen_tables.py -- do not edit *)\n'
+    changed = 0
+    for letter, dirs in [('R', 'ORTH'), ('B', 'DIAG')]:
+        for sq in range(64):
+            text = (hdr +
+                    'Require Import NArith. Require Import Ink.Gen.Magic%s%02d Ink.Spec.Attacks Ink.Proofs.AttackProofs.\n'
+                    'Lemma ok : sweep_ok %s %d Ink.Gen.Magic%s%02d.cfg = true.\n'
+                    'Proof. vm_compute. reflexivity. Qed.\n' % (letter, sq, dirs, sq, letter, sq))
+            changed += write_if_changed(os.path.join(gen_dir, 'Sweep%s%02d.v' % (letter, sq)), text)
+    text = (hdr +
+            'Require Import NArith. Require Import Ink.Gen.Tables Ink.Proofs.AttackProofs.\n'
+            'Lemma ok : leapers_ok Ink.Gen.Tables.tables = true.\n'
+            'Proof. vm_compute. reflexivity. Qed.\n')
+    changed += write_if_changed(os.path.join(gen_dir, 'SweepLeapers.v'), text)
+    a = [hdr.rstrip('\n'),
+         'Require Import NArith List. Import ListNotations.',
+         'Require Import Ink.Model.Tables Ink.Spec.Attacks Ink.Proofs.AttackProofs Ink.Gen.Tables.']
+    a += ['Require Ink.Gen.Sweep%s%02d.' % (l, s) for l in 'RB' for s in range(64)]
+    a += ['Require Ink.Gen.SweepLeapers.', 'Open Scope N_scope.',
+          'Lemma rook_len : length (rook_magics tables) = 64%nat. Proof. reflexivity. Qed.',
+          'Lemma bishop_len : length (bishop_magics tables) = 64%nat. Proof. reflexivity. Qed.',
+          'Lemma all_sweeps : forall sq, sq < 64 ->',
+          '  sweep_ok ORTH sq (nthN (rook_magics tables) sq empty_cfg) = true /\\',
+          '  sweep_ok DIAG sq (nthN (bishop_magics tables) sq empty_cfg) = true.',
+          'Proof.', '  apply forall_lt64.']
+    a += ['  constructor; [exact (conj Ink.Gen.SweepR%02d.ok Ink.Gen.SweepB%02d.ok)|].' % (s, s) for s in range(64)]
+    a += ['  constructor.', 'Qed.',
+          'Lemma leapers : leapers_ok tables = true. Proof. exact Ink.Gen.SweepLeapers.ok. Qed.',
+          'Lemma tables_ok : tables_attacks_ok tables = true.',
+          'Proof.',
+          '  apply tables_attacks_ok_intro; [apply sliders_ok_intro; [exact rook_len|exact bishop_len|exact all_sweeps]|exact leapers].',
+          'Qed.']
+    changed += write_if_changed(os.path.join(gen_dir, 'SweepAll.v'), '\n'.join(a) + '\n')
+    return changed
 
 def main():
     dump_path, repo, gen_dir = sys.argv[1], sys.argv[2], sys.argv[3]
@@ -110,6 +150,7 @@ def main():
                 nlist(rec['ranks']), nlist(rec['files']), '; '.join('(%d, %d)' % ms for ms in rec['layout']),
                 rec['poll_period'][0], src['history_len'], src['tt_capacity']))
     changed += write_if_changed(os.path.join(gen_dir, 'Tables.v'), '\n'.join(t) + '\n')
+    changed += write_sweeps(gen_dir)
     # flat text form for the OCaml driver (no recompilation when data changes)
     flat = open(dump_path).read() + ('src_consts %s %d %d %d %d %d %d %d\n' % (' '.join(map(str, src['mvv'])), src['PAWN'], src['KNIGHT'], src['BISHOP'], src['ROOK'], src['QUEEN'], src['history_len'], src['tt_capacity']))
     write_if_changed(os.path.join(gen_dir, 'tables.txt'), flat)
